@@ -138,7 +138,7 @@ def render(block, ind=0, counter=None, trace_interrupts=False, walrus_iter=False
             lines.append("%sreturn R(%d)" % (p, i))
         else:
             for_head = "for v%d in IT(%%d):" % i
-            if walrus_iter:
+            if walrus_iter is True:
                 # the iterable holds an assignment expression (it must be evaluated in front of the
                 # comprehension the loop is lowered to)
                 for_head = "for v%d in (w%d := IT(%%d)):" % (i, i)
@@ -153,11 +153,20 @@ def render(block, ind=0, counter=None, trace_interrupts=False, walrus_iter=False
                 # once (logged as iter2 by the kit)
                 for_head = "for v%d in iter(IT(%%d)):" % i
             head = {"if": "if C(%d):", "wh": "while W(%d):", "for": for_head}[k]
+            reads = walrus_iter == "target" and k == "for"
+            if reads:
+                # the loop TARGET is a variable of the enclosing scope: bound before the loop, read in the
+                # else clause and after the loop (a class attribute in class placement)
+                lines.append("%sv%d = -1" % (p, i))
             lines.append(p + head % i)
             lines += render(s[1], ind + 1, counter, trace_interrupts, walrus_iter)
             if s[2]:
                 lines.append(p + "else:")
+                if reads:
+                    lines.append("%s L('ve', %d, v%d)" % (p, i, i))
                 lines += render(s[2], ind + 1, counter, trace_interrupts, walrus_iter)
+            if reads:
+                lines.append("%sL('va', %d, v%d)" % (p, i, i))
     return lines
 
 
